@@ -33,7 +33,7 @@ pub fn return_type(lhs: Type, rhs: Type) -> Type {
     let Some(lhs_element) = lhs.element_type() else {
         return lhs;
     };
-    let rhs_element = rhs.element_type().unwrap();
+    let rhs_element = rhs.element_type().unwrap_or(Type::Never);
     var_type!([lhs_element | rhs_element])
 }
 
